@@ -648,8 +648,16 @@ def load_func_for_dataclass(
 
             with fn_gen.try_():
                 field_to_default = dataclass_field_to_default(cls)
+                field_to_factory = {f.name: f.default_factory
+                                    for f in dataclass_fields(cls)
+                                    if f.default_factory is not MISSING}
                 for field, path in field_to_path.items():
-                    if field in field_to_default:
+                    if field in field_to_factory:
+                        # a fresh `default_factory` product for each load
+                        default_value = f'_default_{field}'
+                        _locals[default_value] = field_to_factory[field]
+                        extra_args = f', {default_value}()'
+                    elif field in field_to_default:
                         default_value = f'_default_{field}'
                         _locals[default_value] = field_to_default[field]
                         extra_args = f', {default_value}'
